@@ -365,6 +365,36 @@ def r03_6(ck, F):
                       "queue slot acquired without any preceding credit request", b.loc(s))
 
 
+def r03_7(ck, F):
+    ck.rule("R03.7", "deferred credit returns survive cancellation: ChannelCreditReturner::return_flush polls the "
+            "pending return future in place; the slot self.return_fut is emptied (store of None / take / replace) only "
+            "where no Yield can follow, and start_return parks the message in that slot when the event queue is full",
+            "receive call cancelled while the shared event queue is full: the parked ReturnCredits message is dropped "
+            "with the future, the peer never gets its credits back and its sender wedges", floor=2)
+    b = F.main_body("chmux::credit::ChannelCreditReturner::return_flush")
+    empt = set()
+    for bb, i, s in b.field_stores("return_fut"):
+        empt.add(bb)
+    for bb, t in b.calls(("std::option::Option::take", "std::mem::take", "std::mem::replace", "std::option::Option::replace")):
+        if t["a"] and mir.last_field(b.expr(t["a"][0])) == "return_fut":
+            empt.add(bb)
+    ys = set(b.yields())
+    ck.expect(bool(ys), "return_flush#awaits", "awaits the parked future", "return_flush no longer awaits", b.loc(0))
+    bad = [e for e in empt if b.reach([e], include_start=False) & ys]
+    ck.expect(not bad, "return_flush#slot-kept-across-await",
+              f"{len(empt)} emptying site(s) of self.return_fut, none followed by a Yield",
+              f"self.return_fut is emptied at {[b.loc(x) for x in bad]} before an await: cancelling the receive call there "
+              f"drops the parked credit return", b.loc(bad[0]) if bad else b.loc(0))
+    sb = F.body("chmux::credit::ChannelCreditReturner::start_return")
+    parks = [bb for bb, i, s in sb.field_stores("return_fut")]
+    ok = False
+    for bb in parks:
+        ce = [(switch_expr(sb, s), switch_meaning(sb, s, v)) for s, tb, v in controlling_edges(sb, bb)]
+        ok = ok or any(e[0] == "discr" and mir.calls_in(e, MPSC_TRY_SEND) and m in ("Full", "Err") for e, m in ce)
+    ck.expect(ok, "start_return#park-when-full", "a Full try_send parks the message in self.return_fut",
+              "start_return drops the ReturnCredits message when the event queue is full", sb.loc(0))
+
+
 def run(ck, F):
-    for r in (r03_1, r03_1b, r03_2, r03_2b, r03_3, r03_4, r03_5, r03_6):
+    for r in (r03_1, r03_1b, r03_2, r03_2b, r03_3, r03_4, r03_5, r03_6, r03_7):
         ck.run_rule(r)
